@@ -613,3 +613,15 @@ Lemma from_entire_mimic code y :
   is_v2v3_header code = true ->
   o_data (from_entire (bytes_of (CCode code)) y) = skipn 256 code.
 Proof. intros H. rewrite from_entire_spec. simpl. rewrite H. reflexivity. Qed.
+
+(** ------------------------------------------------ history independence *)
+Lemma load_seq_nth l k v name :
+  nth_error l k = Some (v, name) -> nth_error (load_seq l) k = Some (load v name).
+Proof.
+  revert k. induction l as [|[v' n'] l IH]; intros [|k] H; simpl in *; try discriminate.
+  - injection H as -> ->. reflexivity.
+  - apply IH, H.
+Qed.
+
+Lemma load_seq_app pre post : load_seq (pre ++ post) = (load_seq pre ++ load_seq post)%list.
+Proof. induction pre as [|[v n] pre IH]; simpl; [reflexivity|]. rewrite IH. reflexivity. Qed.
